@@ -6,6 +6,7 @@ import (
 	"fmt"
 	"io"
 	"os"
+	"path/filepath"
 	"regexp"
 	"runtime"
 	"strings"
@@ -17,16 +18,67 @@ import (
 
 // EngCfg is the engine configuration of a case.
 type EngCfg struct {
-	Strict bool `json:"strict,omitempty"`
+	Strict bool     `json:"strict,omitempty"`
+	Delims []string `json:"delims,omitempty"` // objectLeft, objectRight, tagLeft, tagRight (Engine.Delims)
 }
 
 // NewEngine builds an engine with the standard tags/filters plus the harness's
 // own tag, block and filter (they exercise RegisterTag/RegisterBlock/RegisterFilter).
+// apply makes Source() emit this configuration's delimiters.
+func (c EngCfg) apply() {
+	dOL, dOR, dTL, dTR = "{{", "}}", "{%", "%}"
+	if len(c.Delims) == 4 {
+		for i, p := range []*string{&dOL, &dOR, &dTL, &dTR} {
+			if c.Delims[i] != "" {
+				*p = c.Delims[i]
+			}
+		}
+	}
+}
+
+var delimChoices = [][]string{{"[[", "]]", "[%", "%]"}, {"<<", ">>", "<?", "?>"}, {"{{", "}}", "<%", "%>"}, {"${", "}$", "{%", "%}"},
+	// "an empty delimiter stands for the corresponding default" (Engine.Delims)
+	{"", "", "", ""}, {"[[", "]]", "", ""}}
+
+// genCfg draws an engine configuration.
+func genCfg(r *Rng, strictP float64) EngCfg {
+	c := EngCfg{Strict: r.Chance(strictP)}
+	if r.Chance(0.1) {
+		c.Delims = pick(r, delimChoices)
+	}
+	return c
+}
+
 func NewEngine(c EngCfg) *liquid.Engine {
+	c.apply()
 	e := liquid.NewEngine()
 	if c.Strict {
 		e.StrictVariables()
 	}
+	if len(c.Delims) == 4 {
+		e.Delims(c.Delims[0], c.Delims[1], c.Delims[2], c.Delims[3])
+	}
+	// rfile: a custom tag that uses Context.RenderFile with an extra-bindings map it
+	// keeps for the life of the engine (as a site generator's tag would)
+	extras := map[string]any{"site": "example.org", "zz": "<extra-zz>"}
+	e.RegisterTag("rfile", func(ctx render.Context) (string, error) {
+		v, err := ctx.EvaluateString(ctx.TagArgs())
+		if err != nil {
+			return "", err
+		}
+		name, ok := v.(string)
+		if !ok {
+			return "", ctx.Errorf("rfile requires a string")
+		}
+		return ctx.RenderFile(filepath.Join(filepath.Dir(ctx.SourceFile()), name), extras)
+	})
+	e.RegisterTag("expand", func(ctx render.Context) (string, error) {
+		s, err := ctx.ExpandTagArg()
+		if err != nil {
+			return "", err
+		}
+		return "(" + s + ")", nil
+	})
 	e.RegisterTag("echo", func(ctx render.Context) (string, error) {
 		v, err := ctx.EvaluateString(ctx.TagArgs())
 		if err != nil {
